@@ -227,6 +227,7 @@ def shards(tier, seed):
     out.append(("pyopt_mutants", dict(kind="mutants", count=1500, _pyopt=True)))
     out.append(("pyopt_short_integer", dict(kind="short_all", reader="integer", _pyopt=True)))
     out.append(("subidentifiers", dict(kind="subid")))
+    out.append(("concurrent", dict(kind="concurrent", runs=150 if q else 2000)))
     out.append(("roundtrip_oid", dict(kind="rt_oid", count=400 if q else 6000)))
     out.append(("roundtrip_bodies", dict(kind="rt_bodies", big=not q)))
     for i in range(2 if q else 8):
@@ -268,6 +269,21 @@ def run(ctx, name, kind, **kw):
         for v in range(kw["part"] * 256 ** 3 // kw["parts"], (kw["part"] + 1) * 256 ** 3 // kw["parts"]):
             judge_len(ctx, v.to_bytes(3, "big"), stats)
         flush(ctx, stats)
+    elif kind == "concurrent":
+        from vf import sched as S
+        jobs = []
+        body = bytes(range(200))
+        for v in (0, 127, 128, 2 ** 64, 2 ** 255 + 7):
+            jobs += [("encode_integer", der.encode_integer, (v,), R.enc_int(v)), ("remove_integer", lambda s: _norm(der.remove_integer(s)), (R.enc_int(v) + b"\x05",), (v, b"\x05"))]
+        for oid in ((1, 2, 840, 10045, 2, 1), (2, 999, 3), (1, 3, 132, 0, 33), (1, 3, 36, 3, 3, 2, 8, 1, 1, 7)):
+            jobs += [("encode_oid", lambda *a: der.encode_oid(*a), oid, R.enc_oid(oid)), ("remove_object", lambda s: _norm(der.remove_object(s)), (R.enc_oid(oid),), (oid, b""))]
+        for nlen in (0, 5, 127, 128, 200):
+            jobs += [("remove_octet_string", lambda s: _norm(der.remove_octet_string(s)), (R.enc_octet(body[:nlen]),), (body[:nlen], b"")),
+                     ("remove_sequence", lambda s: _norm(der.remove_sequence(s)), (R.enc_seq(body[:nlen]) + b"x",), (body[:nlen], b"x")),
+                     ("remove_bitstring", lambda s: _norm(der.remove_bitstring(s, 0)), (R.enc_bitstring(body[:nlen], 0),), (body[:nlen], b"")),
+                     ("encode_sequence", der.encode_sequence, (body[:nlen],), R.enc_seq(body[:nlen]))]
+        jobs.append(("remove_integer_bad", lambda s: _expect_der_error(der.remove_integer, s), (b"\x02\x02\x00\x01",), "UnexpectedDER"))
+        S.concurrent_purity(ctx, S.codes_of(der), jobs, rng, kw["runs"])
     elif kind == "subid":
         # read_number / encode_number (base-128 sub-identifiers): exhaustive over all inputs of <= 2 bytes and 3-byte inputs
         # with a continuation prefix; round trip for structured values
@@ -494,6 +510,14 @@ def run(ctx, name, kind, **kw):
             group, libf, reff, reenc, _ = rd[nm]
             judge(ctx, nm, group, libf, reff, reenc, gen.mutate_bytes(enc, rng, rng.randrange(1, 4)), stats)
         flush(ctx, stats)
+
+
+def _expect_der_error(f, s):
+    try:
+        f(s)
+    except der.UnexpectedDER:
+        return "UnexpectedDER"
+    return "accepted"
 
 
 def _try(ctx, mech, f, s):
